@@ -92,7 +92,7 @@ def exclude_expr(call: ast.Call, pos: Optional[int] = None, prog: Optional[Progr
         return norm(ex)
     from ..cfg import CFG
     from ..flow import Flow
-    from ..util import classify_cond, stmt_node_of
+    from ..util import canon_dotted, classify_cond, stmt_node_of
     cfg = CFG(f, prog)
     fl = Flow(cfg)
     n = stmt_node_of(cfg, call)
@@ -110,10 +110,9 @@ def exclude_expr(call: ast.Call, pos: Optional[int] = None, prog: Optional[Progr
                 if k.subject == subj and k.kind == 'is-none':
                     return k.negated == pol
             return None
-        if isinstance(v, (ast.Tuple, ast.List, ast.Set)) and len(v.elts) == 1 and (dotted(v.elts[0]) or '').endswith('.context'):
-            if ctx_state(dotted(v.elts[0])) is True:
+        if isinstance(v, (ast.Tuple, ast.List, ast.Set)) and len(v.elts) == 1 and (canon_dotted(f, v.elts[0]) or '').endswith('.context'):
+            if ctx_state(canon_dotted(f, v.elts[0])) is True:
                 kinds.add('ctx')
-                ctx_name = dotted(v.elts[0])
             else:
                 return norm(ex)
         elif isinstance(v, (ast.Tuple, ast.List)) and not v.elts or (isinstance(v, ast.Call) and dotted(v.func) in ('tuple', 'list', 'set', 'frozenset') and not v.args):
